@@ -10,4 +10,8 @@ CHECKS = {
    technique="bounded-exhaustive input enumeration (all strings / all chunk configurations in the bound) against direct string indexing",
    text="All strings up to length 6 over 11 alphabets x 3 ignore sets, all DNA+N strings up to length 7 for reverse_complement, and every (size, overlap, lengths) chunk configuration in the bound (1, 2, 3 and many chunks, 1-3 sequences) are round-tripped through the real functions and compared exactly with slicing.",
    note="ASCII alphabets; unchunk exercised with explicit lengths."),
+ "C18": dict(level="exploration", design_ref="3/C18",
+   technique="bounded-exhaustive input enumeration (all ordered annotation tables / all sequences in the small scope) against brute-force counting",
+   text="All ordered annotation tables with <=4 rows (count/pairwise) and <=3 rows over (2 examples, 3 annotations, start 0..4, length 1..3) for spacing (gaps exactly max_distance, abutting, overlapping, nested, coincident all occur), max_distance 1..3, symmetric on/off, explicit shapes (too-small must raise), tensor/tuple/DataFrame forms; kmers on all sequences L<=6, A 2..4, k<=4 with and without scores; compared exactly with brute-force counting.",
+   note="The k-mer index map is recovered from the single-occurrence calls (bijection required) because it is undocumented; spans have length >= 1."),
 }
